@@ -29,8 +29,14 @@ def design(tier, seed):
 
     r = tlc.run_model('ArithLemmas', 'ArithLemmas.cfg', workers=8, tag='C07-lemma', xmx='4g')
     tlc.cleanup(r['workdir'])
-    return {'states': r['distinct'], 'transitions': r['generated'],
-            'runs': [f'ArithLemmas (bit-sequence add/shift/mul/compare/sqrt = integer arithmetic, all a,b < 32): {r["distinct"]} states, {r["wall_s"]:.1f}s']}
+    r2 = tlc.run_model('ArithAlgoLemmas', 'ArithAlgoLemmas.cfg', workers=8, tag='C07-algo', xmx='4g')
+    tlc.cleanup(r2['workdir'])
+    return {'states': r['distinct'] + r2['distinct'], 'transitions': r['generated'] + r2['generated'],
+            'runs': [f'ArithLemmas (bit-sequence add/shift/mul/compare/sqrt = integer arithmetic, all a,b < 32): {r["distinct"]} states, {r["wall_s"]:.1f}s',
+                     f'ArithAlgoLemmas (algorithm-level netlist builders: the MDFA/Stockmeyer bit-count machine keeps its level invariant at every step for '
+                     f'n <= 9 in both bases, ends with the minimal number of bits within the documented gate bound, terminates; adders, subtractors, '
+                     f'restoring division n <= 4, digit square root n <= 8, plus-one and equality gadgets satisfy their identities on every operand '
+                     f'value): {r2["distinct"]} states, {r2["wall_s"]:.1f}s']}
 
 
 def sources(tier, seed, ctx):
@@ -108,6 +114,7 @@ def record(src):
             m = len(res)
             checks = [{'op': 'wsum', 'ins': [[0, l] for l in c.inputs], 'outs': [[j, l] for j, l in enumerate(out)]}]
             bound = (5 * n - 2 * m) if src['basis'] == 'XAIG' else (7 * n - 3 * m)
+            case['algo'] = {'op': 'popcount', 'a': A.le(list(c.inputs), big), 'basis': src['basis'], 'out': out}
             return A.finish(case, c, pre, rng, res, checks, 'set', res, src['basis'], bound)
         if fn == 'add_sum_n_bits':
             n, big = src['n'], src['big']
@@ -118,6 +125,7 @@ def record(src):
             m = len(res)
             checks = [{'op': 'wsum', 'ins': [[0, l] for l in ops], 'outs': [[j, l] for j, l in enumerate(out)]}]
             bound = (5 * n - 2 * m) if src['basis'] == 'XAIG' else (7 * n - 3 * m)
+            case['algo'] = {'op': 'popcount', 'a': A.le(list(ops), big), 'basis': src['basis'], 'out': out}
             return A.finish(case, c, pre, rng, res, checks, 'same', [], src['basis'], bound)
         if fn.startswith('generate_wsum') or fn.startswith('add_wsum'):
             ws = src['weights']
